@@ -148,13 +148,13 @@ func c09Run(t *testing.T, p c09Plan) (res vfResult) {
 		synctest.Wait()
 		var r2 *Router
 		if p.Restart {
-			raw, err := os.ReadFile(r.statePath)
+			raw, err := os.ReadFile(vfPathOf(r))
 			if err != nil {
 				res.failf("no-state-file", "%v", err)
 				return
 			}
 			os.WriteFile(w.statePath("r2"), raw, 0o644)
-			r2 = NewRouter(w.statePath("r2"))
+			r2 = vfNewRouter(w.statePath("r2"))
 			w.adopt(r2)
 			if err := vfRemove(r, "svc"); err != nil { // the old process is gone, and its probing with it
 				res.failf("setup-failed", "remove: %v", err)
